@@ -113,6 +113,18 @@ CHECKS["C19"] = dict(
    note="Trusted: Lean kernel (decision-logic theorems), model driver, harness. Python-level purity is a property of the runtime: it is decided by the snapshots on sampled call sequences, not by a theorem (DESIGN.md section 9).",
    technique="Lean 4 proof of the decision logic + differential exploration (exception classes, snapshots, RNG-state replays)",
    design="7/C19")
+CHECKS["C18"] = dict(
+   category="translation_validation",
+   text="Proven certificate (QSP/Properties/C18.lean): fpLayout_length / _palindrome (2d palindromic phases for EVERY alpha vector); reflection_as_LA (the alternating reflection sequence R prod(e^{i phi Z} R) has |U_00| = |<+| g |+>| for the Low-algebra element with angles 0, phi_k + pi/2, pi/2); validFP_sound / validFP_Psucc: acceptance implies |P(lambda) - (1 - T_L(x sqrt(1-lambda))^2 / T_L(x)^2)| <= 1e-9 for EVERY lambda in [0,1], and validFP_fixed_point: P >= 1 - delta'^2 - 1e-9 whenever x^2 (1-lambda) <= 1, delta' = 1/T_L(x). Each run calls FPSearch().generate(d, delta) for d up to 40 (quick) / 200 (thorough), checks the interleaving against the model exactly, the gamma form, solves T_L(x) = 1/delta in exact arithmetic (|delta' - delta| <= 1e-12 delta checked exactly) and applies the certificate.",
+   note='''Trusted: Lean kernel + Mathlib, standard axioms, model driver, harness (Newton iteration for the rational x). ''' + "PARTIAL: the closed form for all (d, delta) at once is the analytic theorem of Yoder-Low-Chuang, not formalised; it is certified per (d, delta) instance over the whole continuum of lambda, for delta' within 1e-12 relative of delta.",
+   technique="Lean 4 proven per-instance certificate over the continuum of lambda + exact layout correspondence",
+   design="7/C18")
+CHECKS["C20"] = dict(
+   category="proof",
+   text="Lean theorems (QSP/Properties/C20.lean): floatList_comma / floatList_bracket / floatList_bracket_blanks / floatList_both_forms - for any number of tokens both list syntaxes (also with runs of blanks) parse to the same values; dispatch_total / dispatch_unknown / dispatch_phase_finder / dispatchNamed_* - every documented command maps to exactly one generator list, argument source and keyword set, unknown commands to help. Each run drives the real CommandLine(arglist=...) for every documented phase-yielding command x both list syntaxes x both output modes x {Wx,Wz} with recording proxies around the generators and the phase finder, compares with the model's table row, checks that what is returned / printed as JSON is exactly the library's phase list, and judges the phases with the C01 validator.",
+   note='''Trusted: Lean kernel, model driver, harness (pkg_resources stub, recording proxies in the harness process). argparse itself and Python's float() are oracles (the parser is a parameter of the model). Argument tuples are a fixed list per command.''',
+   technique="Lean 4 proof of parser + dispatch table, differential correspondence through recording proxies",
+   design="7/C20")
 NOT_APPLICABLE = {}
 
 def main():
